@@ -382,11 +382,11 @@ class H3(Case):
         # user j-function: an arbitrary real value at the frequency under consideration
         jv = inp.real("jv")
         if self.ct == "exponential":
-            G.decay("x", -(w0 / wc))                       # cut-off exponentials are generators too (no UF
+            G.decay("x", -(w0 / wc), -1)                     # cut-off exponentials are generators too (no UF
         elif self.ct == "gaussian":                        # in the query: pure QF_NRA)
-            G.decay("x", -((w0 / wc) * (w0 / wc)))
+            G.decay("x", -((w0 / wc) * (w0 / wc)), -1)
         if not zero:
-            b = G.decay("b", -w0 / T)                      # e^{-w0/T}
+            b = G.decay("b", -w0 / T, -1)                  # e^{-w0/T}
             coth = (one + b) / (one - b)                   # coth(w0/2T) = (1+b)/(1-b)
         else:
             b, coth = None, one
